@@ -613,11 +613,12 @@ def confirm(prop, h, labels, logf, tier_cap, r=None):
             if desc and desc[0] != "cover" and (desc[1] == lbl or lbl in desc[1] or desc[1] in lbl):
                 vals = v
                 break
-        if vals is None and not ENGINE_ONLY_UB.search(lbl):
-            out_rep["detail"].append(dict(label=lbl, outcome="no-playback-values"))
-            continue
+        fallback = False
         if vals is None:
+            # the playback run produced no values (it may have run out of time or memory): try the
+            # all-zero input natively - a native reproduction is a reproduction whatever the input
             vals = []
+            fallback = True
         nat = native_replay(h["name"], vals, logf, watchdog=h.get("replay_watchdog", 20))
         out_rep["replays"] += 1
         ok = False
@@ -629,6 +630,8 @@ def confirm(prop, h, labels, logf, tier_cap, r=None):
             if outcome == "crash":
                 ok = True
         d = dict(label=lbl, values=hexvals(vals), native={k: list(v) for k, v in nat.items()})
+        if fallback:
+            d["values_source"] = "no playback values from Kani; all-zero input tried"
         if not ok and ENGINE_ONLY_UB.search(lbl):
             # undefined behaviour at the level of the language standard (e.g. a zero-size allocation,
             # a read of freed memory that happens to still hold the old bytes): no native run can
